@@ -59,7 +59,8 @@ Inductive syskind := Plain | Excl.
 Record sysdecl := mkSys { sd_id : N; sd_kind : syskind; sd_err : bool; sd_take : bool; sd_x : option N }.
 
 (* state of one callback: Local run counter, captured counter, once-wrapper flag *)
-Record cbrec := mkCb { cb_once : option token; cb_runno : N; cb_captured : N; cb_taken : bool }.
+(* cb_live: the harness canary captured by the system closure has not been dropped yet *)
+Record cbrec := mkCb { cb_once : option token; cb_runno : N; cb_captured : N; cb_taken : bool; cb_live : bool }.
 
 (* setup / cleanup function pointers (src/react/commands.rs) *)
 Inductive setup := SuDefault | SuSysEvent (k : N) | SuEntity (k : N) | SuDespawn (k : N) | SuEntityEvent (k : N) | SuBroadcast (k : N).
@@ -177,6 +178,13 @@ Definition push_removed (c : N) (e : ent) (w : world) : world :=
 Fixpoint push_removed_all (cs : list N) (e : ent) (w : world) : world :=
   match cs with [] => w | c :: r => push_removed_all r e (push_removed c e w) end.
 
+(* dropping a boxed callback drops what its closure captured (the harness canary logs it) *)
+Definition drop_callback (t : ent) (w : world) : world :=
+  match alookup t (cbs w) with
+  | Some cb => let w := w <| cbs := aremove t (cbs w) |> in if cb_live cb then emit (EvDropSys t) w else w
+  | None => w
+  end.
+
 Definition despawn (e : ent) (w : world) : world :=
   if negb (is_alive e w) then w else
   let w := w <| alive := removeN e (alive w) |> in
@@ -186,7 +194,7 @@ Definition despawn (e : ent) (w : world) : world :=
   let w := w <| comps := comps_without e (comps w) |> in
   (* SystemCommandStorage: a present callback is dropped with it *)
   let w := match alookup e (storage w) with
-           | Some true => emit (EvDropSys e) (w <| cbs := aremove e (cbs w) |>)
+           | Some true => drop_callback e w
            | _ => w end in
   let w := w <| storage := aremove e (storage w) |> in
   (* EntityReactors: handles dropped in order *)
